@@ -81,7 +81,29 @@ func (c *c08Cmd) verb() string {
 }
 
 // text renders the command line (without tag); APPEND is sent with a literal by the runner.
+// Command names are case-insensitive: a share of the lines spells them in lower or mixed case.
 func (c *c08Cmd) text(nmb int) string {
+	line := c.textUpper(nmb)
+	v := c.verb()
+	if !strings.HasPrefix(line, v) || c.K == "done" || c.K == "idle" {
+		return line
+	}
+	switch ((c.Form % 7) + 7) % 7 {
+	case 5:
+		return strings.ToLower(v) + line[len(v):]
+	case 6:
+		b := []byte(strings.ToLower(v))
+		for i := 0; i < len(b); i += 2 {
+			if b[i] >= 'a' && b[i] <= 'z' {
+				b[i] -= 32
+			}
+		}
+		return string(b) + line[len(v):]
+	}
+	return line
+}
+
+func (c *c08Cmd) textUpper(nmb int) string {
 	pick := func(opts ...string) string { return opts[((c.Form%len(opts))+len(opts))%len(opts)] }
 	switch c.K {
 	case "select":
